@@ -76,6 +76,14 @@ def _batch(args):
         res["digests"][i] = out.digest
         if out.violations:
             res["viol"].append((i, trace, out.violations))
+            # runs whose violations all belong to a listed finding do not count towards the cap on collected violations
+            # (otherwise an open finding that is hit often would end a thorough batch early)
+            try:
+                fnd = _W.get("findings") or []
+                if fnd and all(core.match_finding(fnd, prop, world.classify(prop, trace, v)) is not None for v in out.violations):
+                    res["known_only"] = res.get("known_only", 0) + 1
+            except Exception:       # noqa - classification is repeated (guarded) in the parent
+                pass
         if i in want_traces:
             res["samples"].append((i, trace))
     faulthandler.cancel_dump_traceback_later()
@@ -137,6 +145,7 @@ def cmd_run(a):
     print("VERIF_SEED=%d property=%s tier=%s" % (master, prop, tier), flush=True)
     world = load_world(prop)
     _W["world"] = world
+    _W["findings"] = core.load_findings()
     cfg = world.PROPS[prop][tier]
     n_runs = a.runs or int(os.environ.get("VERIF_RUNS", 0)) or cfg["runs"]
     budget = a.budget or float(os.environ.get("VERIF_BUDGET_S", 0)) or cfg["budget_s"]
@@ -180,10 +189,11 @@ def cmd_run(a):
                         agg["counters"][k] = agg["counters"].get(k, 0) + v
                     agg["sigs"] |= r["sigs"]
                     agg["viol"] += r["viol"]
+                    agg["known_only"] = agg.get("known_only", 0) + r.get("known_only", 0)
                     agg["digests"].update(r["digests"])
                     agg["samples"] += r["samples"]
                     agg["errors"] += r["errors"]
-                    if time.monotonic() - t_start < budget and len(agg["viol"]) < 400:
+                    if time.monotonic() - t_start < budget and len(agg["viol"]) - agg.get("known_only", 0) < 400 and len(agg["viol"]) < 20000:
                         submit()
             # determinism self-test 1: same run again, in (generally) another worker
             done_idx = sorted(agg["digests"])
